@@ -94,6 +94,18 @@ def apply(toks, au, opts):
             out += _call("vx_random_range_incl", [inner[:z], inner[z + 3:]], t.ws)
             i = k + 1
             continue
+        # X.sort_unstable_by_key(closure) / sort_by_key / sort_unstable_by / sort_by   ->   vx_sort(&mut X)
+        #   (whatever the key: the result is a permutation of X)
+        if is_p(t, ".") and toks[i + 1].kind == "id" and toks[i + 1].text in ("sort_unstable_by_key", "sort_by_key", "sort_unstable_by", "sort_by") and is_p(toks[i + 2], "("):
+            k = match_close(toks, i + 2)
+            s_ = _expr_start(out)
+            recv = out[s_:]
+            ws0 = recv[0].ws
+            del out[s_:]
+            au.note("R", f"X.{toks[i+1].text}(closure) -> vx_sort(&mut X)")
+            out += _call("vx_sort", [[Tok("p", "&", ""), Tok("id", "mut", "")] + [_w(recv[0], " ")] + recv[1:]], ws0)
+            i = k + 1
+            continue
         # IT.collect::<std::result::Result<Vec<_>, _>>()  ->  IT.vx_collect_results()
         #   (collecting an iterator of Results: Ok(all items in order) if every item is Ok, else the first Err)
         if is_p(toks[i], ".") and is_id(toks[i + 1], "collect") and texts(toks, i + 2, 3) == [":", ":", "<"]:
